@@ -40,6 +40,22 @@ fn process_cpu_ticks() -> u64 {
     0
 }
 
+/// With `VERIF_TRACE_CASES=1` every case announces itself on stderr before it runs. The driver
+/// re-runs a shard that died from a signal (memory corruption in the code under test) in
+/// this mode to learn which case killed it.
+pub fn trace_case(idx: u64) {
+    use std::sync::atomic::{AtomicU8, Ordering};
+    static TRACE: AtomicU8 = AtomicU8::new(2);
+    let mut t = TRACE.load(Ordering::Relaxed);
+    if t == 2 {
+        t = std::env::var("VERIF_TRACE_CASES").map(|v| v == "1").unwrap_or(false) as u8;
+        TRACE.store(t, Ordering::Relaxed);
+    }
+    if t == 1 {
+        eprintln!("VERIF-CASE {}", idx);
+    }
+}
+
 /// A case that consumes more than `limit_s` seconds of CPU time (about 10^7 times the
 /// normal cost of a case) does not terminate: the helper thread reports it as a
 /// violation with the case as replay and ends the process. CPU time, not wall time, so
@@ -83,6 +99,7 @@ impl Ctx {
     #[inline]
     pub fn begin(&self, idx: u64) {
         CURRENT_CASE.store(idx, std::sync::atomic::Ordering::Relaxed);
+        trace_case(idx);
     }
     pub fn expired(&self) -> bool {
         Instant::now() >= self.deadline
